@@ -9,7 +9,7 @@ def _rerun_before_report(run):
         reproduced = 0
         for item in items:
             case, answer, sname, idx, sd = item
-            if sname not in ("batch", "net", "comp") or " => " not in case or reproduced >= 3:
+            if sname not in ("batch", "net", "comp", "shut") or " => " not in case or reproduced >= 3:
                 # (once three cases have failed again the rest is reported as is)
                 keep.append(item)
                 continue
@@ -30,7 +30,7 @@ def _rerun_before_report(run):
     run.propfails = retry(run.propfails)
     run.diffs = retry(run.diffs)
     for i, (n, ok, d) in enumerate(run.obligations):
-        if not ok and n in ("correspondence:batch", "correspondence:net", "correspondence:comp"):
+        if not ok and n in ("correspondence:batch", "correspondence:net", "correspondence:comp", "correspondence:shut"):
             sname = n.split(":")[1]
             if not [x for x in run.diffs + run.badcases if x[2] == sname]:
                 run.obligations[i] = (n, True, "differences not reproduced on re-run (counted inconclusive)")
@@ -43,9 +43,12 @@ CHECK = {
         suite("net", "c02", 8, 80, stdin=True, args=["-suite", "net"], timeout={"quick": 300, "thorough": 1200}),
         suite("comp", "c02", 60, 600, stdin=True, args=["-suite", "comp"], timeout={"quick": 300, "thorough": 1200}),
         suite("val", "c02", 3000, 60000, stdin=True, args=["-suite", "val"], timeout={"quick": 300, "thorough": 900}),
+        suite("hook", "c02", 400, 8000, stdin=True, args=["-suite", "hook"], timeout={"quick": 300, "thorough": 900}),
+        suite("shut", "c02", 10, 200, stdin=True, args=["-suite", "shut"], timeout={"quick": 300, "thorough": 900}),
+        suite("cfg", "c02", 300, 3000, stdin=True, args=["-suite", "cfg"], timeout={"quick": 300, "thorough": 900}),
     ],
     "gen": [{"pkg": "extract_c02", "out": "lean/ClusterVerif/Gen/C02.lean"}],
-    "lean_sources": ["ClusterVerif/Model/C02Source.lean", "ClusterVerif/Gen/C02.lean", "ClusterVerif/Model/C02.lean", "ClusterVerif/Spec/C02.lean", "ClusterVerif/Lemmas/C02.lean", "ClusterVerif/Lemmas/C02Compose.lean", "ClusterVerif/Model/C02Ctx.lean", "ClusterVerif/Lemmas/C02Ctx.lean"],
+    "lean_sources": ["ClusterVerif/Model/C02Source.lean", "ClusterVerif/Gen/C02.lean", "ClusterVerif/Model/C02.lean", "ClusterVerif/Spec/C02.lean", "ClusterVerif/Lemmas/C02.lean", "ClusterVerif/Lemmas/C02Compose.lean", "ClusterVerif/Model/C02Ctx.lean", "ClusterVerif/Lemmas/C02Ctx.lean", "ClusterVerif/Model/C02Hooks.lean"],
     "rule": "set: 2-3 real go-ds-crdt replicas, 2-12 puts/deletes/batches over 1-3 keys, scripted deliveries (old, repeated, newest-first), "
             "final full exchange; thorough: every third case delivers a <=5-delta history to a third replica in the k-th of all permutations. "
             "batch: one real crdt.Consensus, batching off / size 1,2,3,5 / age 60ms, queue 50 or size..size+2, bursts against a worker held inside "
@@ -65,7 +68,8 @@ CHECK = {
                      "value numbering: numeric order of value ids = bytes.Compare of the real ProtoMarshal encodings (pins with <= 1 metadata key)",
                      "libp2p/gossipsub delivery and signature checking, ipfs-lite block exchange (net and comp suites)",
                      "local-publish detection by call stack (addDAGNode), DAG-node capture and head-put capture in the datastore wrapper (comp suite)",
-                     "reading the registered validator out of go-libp2p-pubsub v0.4.1 by reflection; pubsub's own signature check is not exercised (val suite)"],
+                     "reading the registered validator out of go-libp2p-pubsub v0.4.1 by reflection; pubsub's own signature check is not exercised (val suite)",
+                     "hook suite: raw writes through Consensus.VerifRawPut/VerifRawDelete (/repo/consensus/crdt/verif_export_c02b.go), pin content identified by its Name"],
     "extra": [_rerun_before_report],
     "assumptions": ["value convergence is claimed under (H1) no delta puts a key twice and (H2) the greatest (priority,value) of a member key "
                     "belongs to a never-tombstoned element; outside them go-ds-crdt v0.1.21 diverges (K05, K05b) - proved and replayed",
@@ -95,8 +99,21 @@ META = {
             "run with contexts equals the run with them erased, so an accepted operation is committed whatever happens to the caller's context "
             "afterwards and the worker never reaches the nil-delta publish; for a state layer that returns ctx.Err() the statement is refuted (accepted "
             "pin dropped; a dropped first item crashes the worker at the age commit). The batch and comp suites submit operations with request-scoped, "
-            "already-done and expiring contexts against the real Consensus and compare the committed pinset and tracker calls.",
+            "already-done and expiring contexts against the real Consensus and compare the committed pinset and tracker calls. "
+            "Round 8b: the hand-off to the tracker, the batching configuration and Shutdown. The bodies of the Put/Delete hooks of setup() are regenerated "
+            "by a go/ast translator as a small statement language that the Lean model INTERPRETS; proved for every raw key and value: the interpreted "
+            "PutHook tracks the pin decoded from the value (nothing for an undecodable value), the DeleteHook untracks the cid of the key (nothing for a "
+            "key that is not a cid key); every hook of any merge that concerns an entry as State.Add/Rm write it yields exactly the tracker call the "
+            "property asks for, so every change of the view is handed to the tracker (or is the characterised revival case); the unrestricted reading "
+            "(tracker told about the cid the pinset lists, for ANY listed entry) is refuted: Track carries the cid stored in the value, List the cid of "
+            "the key. Config.batchingEnabled and the batching arm of Validate are regenerated (fields, operators, constants) and proved equal to the "
+            "model for every configuration; every configuration is either 'batching off' or a worker configuration with size >= 1 and, when valid, queue "
+            ">= 1 (an operation submitted to an empty queue is accepted in every valid configuration). Shutdown: the worker leaves without a final flush; "
+            "'accepted => committed across Shutdown' is refuted, and what is lost is proved to be a suffix of the accepted operations (no hole, no "
+            "reordering). New suites on the real code: hook (raw puts/deletes incl. undecodable values, values carrying another or no cid, foreign keys, "
+            "deletes of absent keys: tracker calls and State.List after every step), cfg (Config.LoadJSON + batchingEnabled on boundary values), shut "
+            "(Shutdown with an open batch, restart on the same datastore).",
     "note": "Trusted: Lean kernel, hand-written model/spec, harness (datastore wrapper, broadcaster, value numbering), pubsub in the net suite. "
             "Known findings K05/K05b/K05c/K05d are dependency defects (go-ds-crdt v0.1.21), each with a proved witness and a narrow signature.",
-    "technique": "go/ast translator of the context uses of the state layer and of the worker's context wiring related to the model by decide/rfl + regenerated source text of the anchored functions checked against the transcribed snapshot (rfl) + Lean 4 theorems over a replicated-set model and a batching-worker step model + differential correspondence on real go-ds-crdt replicas and a real crdt.Consensus",
+    "technique": "go/ast translators (hook bodies as an interpreted statement language; batchingEnabled/Validate as comparison tables; context uses of the state layer and the worker's context wiring) related to the model by theorems for all inputs / decide / rfl + regenerated source text of the anchored functions checked against the transcribed snapshot (rfl) + Lean 4 theorems over a replicated-set model and a batching-worker step model + differential correspondence on real go-ds-crdt replicas and a real crdt.Consensus",
 }
